@@ -1,4 +1,214 @@
-//! native validation of the oracles of this family against the repository's vectors
+//! native validation of the oracles of this family (rc5, speck, threefish, gift) against the repository's vectors.
+//!
+//! None of the four crates has `.blb` files: their known-answer vectors are inline in `<crate>/tests/mod.rs`.
+//! They are not re-typed here but read from those files at run time (tiny literal scanners below); the expected
+//! number of vectors per file is checked so that a scanner that silently finds nothing fails the validation.
 #![allow(unused)]
 use crate::T;
-pub fn run(repo: &str, t: &mut T) {}
+use refmodels::{gift, rc5, speck, threefish};
+use std::fs;
+
+fn unhex(s: &str) -> Vec<u8> {
+    let d: Vec<u8> = s.bytes().filter(|c| c.is_ascii_hexdigit()).collect();
+    d.chunks(2).map(|p| u8::from_str_radix(std::str::from_utf8(p).unwrap(), 16).unwrap()).collect()
+}
+/// all string literals in `s`, concatenated
+fn strings(s: &str) -> String {
+    let mut out = String::new();
+    let mut inside = false;
+    for c in s.chars() {
+        if c == '"' {
+            inside = !inside;
+        } else if inside {
+            out.push(c);
+        }
+    }
+    out
+}
+/// the arguments of every `hex!( ... )` in `s`, each decoded
+fn hex_literals(s: &str) -> Vec<Vec<u8>> {
+    let mut v = Vec::new();
+    let mut rest = s;
+    while let Some(p) = rest.find("hex!(") {
+        let after = &rest[p + 5..];
+        let end = after.find(')').unwrap();
+        v.push(unhex(&strings(&after[..end])));
+        rest = &after[end..];
+    }
+    v
+}
+
+// ---------------------------------------------------------------- RC5
+fn rc5_crypt<const TT: usize, const C: usize>(w: u32, key: &[u8], blk: &[u8], dec: bool) -> Vec<u8> {
+    let s = rc5::expand_key::<TT, C>(w, key);
+    let mut b = blk.to_vec();
+    rc5::crypt_block(w, &s, &mut b, dec);
+    b
+}
+fn rc5_any(w: u32, r: usize, key: &[u8], blk: &[u8], dec: bool) -> Option<Vec<u8>> {
+    Some(match (w, r, key.len()) {
+        (8, 12, 4) => rc5_crypt::<26, 4>(w, key, blk, dec),
+        (16, 16, 8) => rc5_crypt::<34, 4>(w, key, blk, dec),
+        (32, 12, 16) => rc5_crypt::<26, 4>(w, key, blk, dec),
+        (32, 16, 16) => rc5_crypt::<34, 4>(w, key, blk, dec),
+        (64, 24, 24) => rc5_crypt::<50, 3>(w, key, blk, dec),
+        (128, 28, 32) => rc5_crypt::<58, 2>(w, key, blk, dec),
+        (32, 12, 0) => rc5_crypt::<26, 1>(w, key, blk, dec),
+        _ => return None,
+    })
+}
+
+fn run_rc5(repo: &str, t: &mut T) {
+    for w in [8u32, 16, 32, 64, 128] {
+        t.check(&format!("rc5 P_{w},Q_{w} = Odd((e-2)2^w), Odd((phi-1)2^w)"), rc5::pq(w) == rc5::derive_pq(w));
+    }
+    let src = fs::read_to_string(format!("{repo}/rc5/tests/mod.rs")).unwrap();
+    let mut n = 0;
+    for f in src.split("#[test]").skip(1) {
+        let h = hex_literals(f);
+        let p = f.find("RC5<u").unwrap();
+        let ty: Vec<&str> = f[p + 4..f[p..].find('>').unwrap() + p].split(',').map(|x| x.trim()).collect();
+        let w: u32 = ty[0][1..].parse().unwrap();
+        let r: usize = ty[1][1..].parse().unwrap();
+        let b: usize = ty[2][1..].parse().unwrap();
+        let (key, pt, ct) = (&h[0], &h[1], &h[2]);
+        let ok = b == key.len() && rc5_any(w, r, key, pt, false).as_ref() == Some(ct) && rc5_any(w, r, key, ct, true).as_ref() == Some(pt);
+        t.check(&format!("rc5-{w}/{r}/{b} rc5/tests/mod.rs"), ok);
+        n += 1;
+    }
+    t.check("rc5 tests/mod.rs: 6 vectors found", n == 6);
+    // Rivest's paper, section 6 examples (RC5-32/12/16)
+    let z = [0u8; 16];
+    t.check("rc5-32/12/16 paper example 1", rc5_any(32, 12, &z, &[0u8; 8], false).unwrap() == unhex("21A5DBEE154B8F6D"));
+    t.check(
+        "rc5-32/12/16 paper example 2",
+        rc5_any(32, 12, &unhex("915F4619BE41B2516355A50110A9CE91"), &unhex("21A5DBEE154B8F6D"), false).unwrap() == unhex("F7C013AC5B2B8952"),
+    );
+    // b = 0 (c = max(1, 0) = 1): encryption and decryption are inverse and deterministic
+    let c0 = rc5_any(32, 12, &[], &[1, 2, 3, 4, 5, 6, 7, 8], false).unwrap();
+    t.check("rc5-32/12/0 oracle round trip", rc5_any(32, 12, &[], &c0, true).unwrap() == [1, 2, 3, 4, 5, 6, 7, 8]);
+}
+
+// ---------------------------------------------------------------- Speck
+fn speck_crypt(bb: u32, kb: u32, key: &[u8], blk: &[u8], dec: bool) -> Vec<u8> {
+    let p = speck::params(bb, kb);
+    let rk = speck::key_schedule(&p, key);
+    let mut b = blk.to_vec();
+    speck::crypt_block(&p, &rk, &mut b, dec);
+    b
+}
+fn run_speck(repo: &str, t: &mut T) {
+    let src = fs::read_to_string(format!("{repo}/speck/tests/mod.rs")).unwrap();
+    let mut n = 0;
+    for inv in src.split("new_test!(").skip(1) {
+        let body = &inv[..inv.find(");").unwrap()];
+        let parts: Vec<&str> = body.split(',').map(|x| x.trim()).collect();
+        if !parts[1].starts_with("Speck") {
+            continue; // the macro definition itself
+        }
+        let dims: Vec<u32> = parts[1][5..].split('_').map(|x| x.parse().unwrap()).collect();
+        let (key, pt, ct) = (unhex(parts[2]), unhex(parts[3]), unhex(parts[4]));
+        let ok = key.len() as u32 * 8 == dims[1]
+            && pt.len() as u32 * 8 == dims[0]
+            && speck_crypt(dims[0], dims[1], &key, &pt, false) == ct
+            && speck_crypt(dims[0], dims[1], &key, &ct, true) == pt;
+        t.check(&format!("speck{}/{} speck/tests/mod.rs", dims[0], dims[1]), ok);
+        // the key schedule written with the round function == the paper's formulas transcribed directly
+        let p = speck::params(dims[0], dims[1]);
+        let wb = (p.n / 8) as usize;
+        let kw: Vec<u64> = key.chunks(wb).map(speck::word_from_be).collect();
+        t.check(
+            &format!("speck{}/{} key schedule: R_i form == direct formulas", dims[0], dims[1]),
+            speck::key_schedule_words(&p, &kw) == speck::key_schedule_words_direct(&p, &kw) && speck::key_schedule_words(&p, &kw) == speck::key_schedule(&p, &key),
+        );
+        n += 1;
+    }
+    t.check("speck tests/mod.rs: 10 vectors found", n == 10);
+}
+
+// ---------------------------------------------------------------- Threefish
+fn tf_crypt(nw: usize, key: &[u8], tweak: &[u8; 16], blk: &[u8], dec: bool) -> Vec<u8> {
+    let mut b = blk.to_vec();
+    match nw {
+        4 => threefish::crypt_bytes::<4, 19>(key, tweak, &mut b, dec),
+        8 => threefish::crypt_bytes::<8, 19>(key, tweak, &mut b, dec),
+        _ => threefish::crypt_bytes::<16, 21>(key, tweak, &mut b, dec),
+    }
+    b
+}
+/// value of one `Vector` field: `&[0; N]`, `&hex!(..)`, `Some(&hex!(..))`, `None`
+fn tf_field(s: &str) -> Option<Vec<u8>> {
+    let s = s.trim();
+    if s.starts_with("None") {
+        return None;
+    }
+    if let Some(p) = s.find("[0;") {
+        let n: usize = s[p + 3..s.find(']').unwrap()].trim().parse().unwrap();
+        return Some(vec![0u8; n]);
+    }
+    Some(unhex(&strings(s)))
+}
+fn run_threefish(repo: &str, t: &mut T) {
+    let src = fs::read_to_string(format!("{repo}/threefish/tests/mod.rs")).unwrap();
+    let mut n = 0;
+    for sect in src.split("impl_test! {").skip(1) {
+        let nw = if sect.contains("Threefish256,") {
+            4
+        } else if sect.contains("Threefish512,") {
+            8
+        } else if sect.contains("Threefish1024,") {
+            16
+        } else {
+            continue;
+        };
+        for (vi, v) in sect.split("Vector {").skip(1).enumerate() {
+            let (pk, pt_, pp, pc) = (v.find("key:").unwrap(), v.find("tweak:").unwrap(), v.find("pt:").unwrap(), v.find("ct:").unwrap());
+            let key = tf_field(&v[pk + 4..pt_]).unwrap();
+            let tweak = tf_field(&v[pt_ + 6..pp]);
+            let pt = tf_field(&v[pp + 3..pc]).unwrap();
+            let ct = tf_field(&v[pc + 3..]).unwrap();
+            // `None` tweak = the plain keyed constructor = zero tweak (the statement of C10)
+            let tw: [u8; 16] = tweak.map(|x| x.try_into().unwrap()).unwrap_or([0u8; 16]);
+            let ok = key.len() == 8 * nw && pt.len() == 8 * nw && tf_crypt(nw, &key, &tw, &pt, false) == ct && tf_crypt(nw, &key, &tw, &ct, true) == pt;
+            t.check(&format!("threefish-{} vector {vi} threefish/tests/mod.rs", 64 * nw), ok);
+            n += 1;
+        }
+    }
+    t.check("threefish tests/mod.rs: 10 vectors found", n == 10);
+}
+
+// ---------------------------------------------------------------- GIFT
+fn run_gift(repo: &str, t: &mut T) {
+    let src = fs::read_to_string(format!("{repo}/gift/tests/mod.rs")).unwrap();
+    let h = hex_literals(&src);
+    t.check("gift tests/mod.rs: 3 keys, 3 plaintexts, 3 ciphertexts found", h.len() == 9);
+    for i in 0..3 {
+        let key: [u8; 16] = h[i].clone().try_into().unwrap();
+        let pt: [u8; 16] = h[3 + i].clone().try_into().unwrap();
+        let ct: [u8; 16] = h[6 + i].clone().try_into().unwrap();
+        t.check(&format!("gift-128 vector {i} gift/tests/mod.rs"), gift::encrypt(&key, &pt) == ct && gift::decrypt(&key, &ct) == pt);
+    }
+    // the specification's list of round constants (section 2.2 of the paper, first 16)
+    let rc = gift::round_constants();
+    t.check(
+        "gift round constants (LFSR) = published list",
+        rc[..16] == [0x01, 0x03, 0x07, 0x0F, 0x1F, 0x3E, 0x3D, 0x3B, 0x37, 0x2F, 0x1E, 0x3C, 0x39, 0x33, 0x27, 0x0E],
+    );
+    let mut perm_ok = true;
+    let mut seen = [false; 128];
+    for i in 0..128 {
+        perm_ok &= !seen[gift::p128(i)];
+        seen[gift::p128(i)] = true;
+    }
+    // spot values of Table 2 of the paper: P128(1) = 33, P128(4) = 96, P128(115) = 127, P128(127) = 31
+    t.check("gift P128 is a permutation with the published spot values", perm_ok && gift::p128(0) == 0 && gift::p128(1) == 33 && gift::p128(2) == 66 && gift::p128(3) == 99 && gift::p128(4) == 96 && gift::p128(115) == 127 && gift::p128(127) == 31);
+    let x = 0x0123456789abcdef_fedcba9876543210u128;
+    t.check("gift bitslice/unbitslice inverse", gift::unbitslice(&gift::bitslice(x)) == x);
+}
+
+pub fn run(repo: &str, t: &mut T) {
+    run_rc5(repo, t);
+    run_speck(repo, t);
+    run_threefish(repo, t);
+    run_gift(repo, t);
+}
